@@ -600,6 +600,60 @@ func runC17(w *World, r *Report) {
 	}
 
 	// ---- loopvar
+	r.Rule("C17.frame-slot-is-the-position", "the slot of a call's messages in the streamed frames is the call's position in the list, as the result list of Invoke has it: no integer captured by a literal built in ToolsNode.Stream derives from the Index the model gave the call — a list not in index order would permute ids and outputs, indices that start at 1 or have gaps would index the frame out of range", 1)
+	{
+		st := w.Fn("compose", "ToolsNode.Stream")
+		n := 0
+		instrs(st, func(in ssa.Instruction) {
+			mc, ok := in.(*ssa.MakeClosure)
+			if !ok {
+				return
+			}
+			for bi, b := range mc.Bindings {
+				// captured by reference: a cell of int
+				if bt, isB := deref(b.Type()).Underlying().(*types.Basic); !isB || bt.Info()&types.IsInteger == 0 {
+					continue
+				}
+				n++
+				bad := false
+				seen := map[ssa.Value]bool{}
+				var visit func(v ssa.Value, d int)
+				visit = func(v ssa.Value, d int) {
+					if v == nil || d > 12 || seen[v] || bad {
+						return
+					}
+					seen[v] = true
+					if f, _ := loadedField(v); f != nil && f.Name() == "Index" {
+						bad = true
+						return
+					}
+					switch x := v.(type) {
+					case *ssa.Alloc:
+						for _, s2 := range storesToCell(st, x) {
+							visit(s2.Val, d+1)
+						}
+					case *ssa.Phi:
+						for _, e := range x.Edges {
+							visit(e, d+1)
+						}
+					case *ssa.UnOp:
+						visit(x.X, d+1)
+					case *ssa.BinOp:
+						visit(x.X, d+1)
+						visit(x.Y, d+1)
+					case *ssa.Convert:
+						visit(x.X, d+1)
+					}
+				}
+				visit(b, 0)
+				r.Check(!bad, "C17.frame-slot-is-the-position", fmt.Sprintf("ToolsNode.Stream: %s captures integer #%d", mc.Fn.Name(), bi), mc.Fn.(*ssa.Function).Pos(), "derives from the loop position only", "the frame slot is taken from ToolCall.Index: calls numbered 0..n-1 in list order are unaffected, but [1 0] / [2 0 3 1] silently permute ids and outputs and [1 2] / [0 2] make the converter index the frame out of range ('panic error: index out of range') although no tool failed — the streamed form no longer concatenates to the list Invoke returns")
+			}
+		})
+		if n == 0 {
+			undecidedf("C17.frame-slot-is-the-position: no literal of ToolsNode.Stream captures an integer")
+		}
+	}
+
 	r.Rule("C17.loopvar", "no escaping literal captures a loop variable (pre-1.22 semantics)", 1)
 	nlit := 0
 	for _, fn := range w.RepoFuncs("compose", "schema", "flow", "internal", "components") {
